@@ -792,7 +792,7 @@ func runC07Dispatch(c *Ctx) {
 	hf := callsIn(fn, false, func(cc *ssa.CallCommon) bool { return methodName(cc) == "handleFrame" })
 	he := callsIn(fn, false, func(cc *ssa.CallCommon) bool { return methodName(cc) == "handleError" })
 	nx := callsIn(fn, false, func(cc *ssa.CallCommon) bool { return methodName(cc) == "Next" })
-	if len(dec) != 1 || len(hf) != 1 || len(he) != 1 || len(nx) != 1 {
+	if len(dec) != 1 || len(hf) != 1 || len(he) != 1 || len(nx) < 1 {
 		c.Fail("C07.B2d", fk+":shape", fn.Pos(), fmt.Sprintf("expected one Decode/handleFrame/handleError/Next call, found %d/%d/%d/%d", len(dec), len(hf), len(he), len(nx)))
 		return
 	}
@@ -808,7 +808,7 @@ func runC07Dispatch(c *Ctx) {
 	c.Check("C07.B2d", fk+":frame-identity", hf[0].Instr.Pos(), frameOK, "handleFrame receives this iteration's Decode result", "handleFrame is not given the frame Decode just returned")
 	// between Decode and the next Decode: exactly one handleFrame on the frame!=nil path, and Next
 	noSkip := existsPathEdges(fn, d, func(in ssa.Instruction) bool { return in == d },
-		func(in ssa.Instruction) bool { return in == hf[0].Instr || isReturn(in) },
+		func(in ssa.Instruction) bool { return in == hf[0].Instr || in == he[0].Instr || isReturn(in) },
 		func(from, to *ssa.BasicBlock) bool {
 			// the false edge of `frame != nil` is infeasible here: (nil,nil) and err != nil have already returned
 			if ifi, ok := from.Instrs[len(from.Instrs)-1].(*ssa.If); ok {
@@ -853,8 +853,18 @@ func runC07Dispatch(c *Ctx) {
 	}
 	loopsOn := existsPath(fn, hf[0].Instr, func(in ssa.Instruction) bool { return isReturn(in) && !emptyReturn(in) }, func(in ssa.Instruction) bool { return in == d }) == nil
 	c.Check("C07.B2d", fk+":continues-after-frame", hf[0].Instr.Pos(), loopsOn, "after handleFrame the loop goes on to decode the rest of the buffer (it leaves only when the buffer is empty)", "Dispatch can return right after handling a frame: further complete frames already in the buffer stay undecoded until more bytes arrive")
-	nextOK := existsPath(fn, hf[0].Instr, func(in ssa.Instruction) bool { return in == d }, func(in ssa.Instruction) bool { return in == nx[0].Instr }) == nil
-	c.Check("C07.B2d", fk+":next-context", nx[0].Instr.Pos(), nextOK, "ctxManager.Next() between frames", "the per-stream context is not advanced between two frames")
+	isNext := func(in ssa.Instruction) bool {
+		for _, n := range nx {
+			if n.Instr == in {
+				return true
+			}
+		}
+		return false
+	}
+	// after a handled frame, and after an answered decode error behind which the loop goes on, the context is advanced
+	nextOK := existsPath(fn, hf[0].Instr, func(in ssa.Instruction) bool { return in == d }, isNext) == nil &&
+		existsPath(fn, he[0].Instr, func(in ssa.Instruction) bool { return in == d }, isNext) == nil
+	c.Check("C07.B2d", fk+":next-context", nx[0].Instr.Pos(), nextOK, "ctxManager.Next() between frames (also behind an answered decode error)", "the per-stream context is not advanced between two frames: the next frame is decoded in the context of the previous one (its variables, its stream object)")
 	// exits: returns are guarded by Len()==0, frame==nil&&err==nil, err!=nil, or type mismatch
 	nret := 0
 	for _, in := range instrsWhere(fn, isReturn) {
